@@ -7,7 +7,7 @@ INVALID = ['1 +', 'f(', '(1', '[1,\n2', '{1: 2', 'x =', '1 2', 'a b c', '$', 'x 
            ')', '(1))', '1 +\n2 2', 'a[1:2:3]', 'x | f()', '{1:2,,}', 'del x', '%a', '1 ? 2', '[1, 2\n 3', 'x.y', '(a) => a']
 RUNTIME = ['1 / 0', 'undefined_name', 'nofn(1)', '[1,2][5]', '{"a": 1}["b"]', 'pop([])', 'u += 1', '"a" - 1', 'len(1)',
            'x = 1; x.push(2)', 'int("z")']
-VALID = ['1 + 2', 'x = 5', 'x', 'y = [1, 2, 3]', 'y.push(4); y', 'len(y)', 'x = x + 1; x', 'd = {"k": [1]}', 'd["k"].push(2); d',
+VALID = ['len = 3', 'len([1, 2])', 'str = 1', 'str(2)', 'q = 9', 'q', 'sum = v => 0', 'sum([1, 2])', '1 + 2', 'x = 5', 'x', 'y = [1, 2, 3]', 'y.push(4); y', 'len(y)', 'x = x + 1; x', 'd = {"k": [1]}', 'd["k"].push(2); d',
          'f = n => n * 2', 'f(3)', 'g = n => 1 if n < 2 else n * g(n - 1)', 'g(4)', 'g(30)', 'map([1,2,3], f)', '[1,\n2,\n3]',
          '(1 +\n2)', 'a = 1; b = 2\na + b', '# just a comment', '', '   ', '1 ;; 2', '"s" + 1', 'z = y', 'z.push(9); [y, z]',
          'h = v => v + x', 'h(1)', 'sorted([3,1,2])', 'rand(1, 6)', 'shuffle([1,2,3])', 'x = [x]', 'del d["k"]', 'y[0] = 7; y',
@@ -76,7 +76,7 @@ def history(rng, texts, cache):
         elif k == 3 and nmaps:
             calls.append(('hostpush', rng.randrange(nmaps), 'y', he.num()))
         else:
-            calls.append(('eval', t, rng.randrange(nmaps), rng.choice(['default', 'default', 30, 12, 1000, 5]), rng.randrange(1, 2 ** 31)))
+            calls.append(('eval', t, rng.randrange(nmaps) if rng.random() < 0.8 else 'none', rng.choice(['default', 'default', 30, 12, 1000, 5]), rng.randrange(1, 2 ** 31)))
     def enc(c):
         if c[0] == 'parse':
             return f'(parse {hx(c[1])})'
